@@ -22,7 +22,12 @@
 (***************************************************************************)
 EXTENDS Naturals, Sequences, FiniteSets, TLC
 
-CONSTANT N            \* number of message ids the model may allocate
+CONSTANT N,           \* number of message ids the model may allocate
+         SyncMap      \* TRUE: the code since fix "register before send" - the request map is behind a
+                      \*   non-async mutex that is never held across an await: rpc() registers the
+                      \*   request as Pending, then sends (removing the entry if the send fails);
+                      \*   a reader parks a reply in the same poll that took it off the transport.
+                      \* FALSE: the code as found - async mutex, held by rpc() across send()
 Id == 1..N
 CALLER == N + 1       \* lock-queue identity of the task inside rpc()
 
@@ -129,6 +134,9 @@ FutStep(s, t) ==
 
 (* dropping a suspended (or never polled) reply future *)
 FutLive(s, t) == s.pc[t] \notin {"unborn", "done", "dropped"}
+(* with the non-async map lock there is no await point between taking a reply off the transport  *)
+(* and parking it (nor between the lock and the check of the own slot)                           *)
+FutDroppable(s, t) == FutLive(s, t) /\ (SyncMap => s.pc[t] \notin {"wantMap1", "wantMap2"})
 DropFut(s, t) ==
   LET a == [s EXCEPT !.pc[t] = "dropped", !.held[t] = NoHeld,
                      !.rxq = Without(@, t), !.mapq = Without(@, t), !.drops = @ + 1,
@@ -139,15 +147,28 @@ DropFut(s, t) ==
 ---------------------------------------------------------------------------
 (* the task that calls rpc() *)
 CallerCanStep(s) ==
-  CASE s.cpc = "wantMap"  -> s.mapHolder = CALLER \/ s.mapHolder = 0 \/ ~InSeq(CALLER, s.mapq)
+  CASE s.cpc = "wantMap"  -> SyncMap \/ s.mapHolder = CALLER \/ s.mapHolder = 0 \/ ~InSeq(CALLER, s.mapq)
     [] s.cpc = "send"     -> s.sendMode # "before" \/ s.closed
     [] s.cpc = "sentwait" -> s.sendMode # "after"
     [] OTHER -> FALSE
 
 Register(s) ==   \* send finished: insert Pending, unlock the map, the reply future exists
   ReleaseMap([s EXCEPT !.slot[s.cid] = "pending", !.pc[s.cid] = "new", !.cpc = "idle", !.cid = 0])
+Born(s) ==       \* SyncMap: send finished, the request is registered already: the reply future exists
+  [s EXCEPT !.pc[s.cid] = "new", !.cpc = "idle", !.cid = 0]
 
-CallerStep(s) ==
+CallerStepSync(s) ==
+  CASE s.cpc = "wantMap" -> [s EXCEPT !.slot[s.cid] = "pending", !.cpc = "send"]   \* lock, insert, unlock: no await
+    [] s.cpc = "send" ->
+         IF s.closed
+         THEN [s EXCEPT !.slot[s.cid] = "none", !.cpc = "idle", !.cid = 0, !.cerr = @ + 1]   \* entry removed again
+         ELSE IF s.sendMode = "free"
+         THEN Born([s EXCEPT !.sent = Append(@, s.cid)])
+         ELSE [s EXCEPT !.sent = Append(@, s.cid), !.cpc = "sentwait"]     \* "after"
+    [] s.cpc = "sentwait" -> Born(s)
+    [] OTHER -> s
+
+CallerStepAsync(s) ==
   CASE s.cpc = "wantMap" ->
          IF s.mapHolder # CALLER /\ s.mapHolder # 0
          THEN [s EXCEPT !.mapq = Append(@, CALLER)]
@@ -160,10 +181,12 @@ CallerStep(s) ==
          ELSE [s EXCEPT !.sent = Append(@, s.cid), !.cpc = "sentwait"]     \* "after"
     [] s.cpc = "sentwait" -> Register(s)
     [] OTHER -> s
+CallerStep(s) == IF SyncMap THEN CallerStepSync(s) ELSE CallerStepAsync(s)
 
 (* the rpc() future itself is dropped while suspended (caller-side cancellation): the map lock   *)
-(* is released; a request that already reached the wire stays unregistered.  Treated as a fault  *)
-(* for the progress part of the contract, never for the safety part.                             *)
+(* is released; a request that already reached the wire stays unregistered (SyncMap: it stays    *)
+(* registered and nobody will ever collect its reply).  Treated as a fault for the progress part *)
+(* of the contract, never for the safety part.                                                   *)
 DropCaller(s) ==
   LET a == [s EXCEPT !.cpc = "idle", !.cid = 0, !.mapq = Without(@, CALLER), !.faulty = TRUE]
   IN  IF s.mapHolder = CALLER THEN ReleaseMap(a) ELSE a
